@@ -1,7 +1,7 @@
 SPECIFICATION Spec
 CONSTANTS
   Deviations <- AllDevs
-  InputMenu <- MenuThorough
+  InputMenu <- MenuChainT
   MaxNodes = 3
   Vals <- ValsStd
   Rich = 1
